@@ -258,8 +258,9 @@ func (c *ctx) shapeFacts() {
 	fd = c.funcDecl(c.files, "LocalStore", "StoreChunk")
 	sh = c.callShape(fd, [][2]string{
 		{"os.MkdirAll", "MkdirAll"}, {"tempfile.NewMode", "TempFile"}, {"tmp.Write", "Write"}, {"tmp.Close", "Close"},
-		{"os.Remove", "Remove"}, {"os.Rename", "Rename"}, {"os.Create", "Create"}, {"os.OpenFile", "OpenFile"}, {"ioutil.WriteFile", "WriteFile"}, {"os.WriteFile", "WriteFile"}})
-	c.lean.WriteString("/-- file operations of `LocalStore.StoreChunk`, in source order -/\n")
+		{"os.Remove", "Remove"}, {"os.Rename", "Rename"}, {"os.Create", "Create"}, {"os.OpenFile", "OpenFile"}, {"ioutil.WriteFile", "WriteFile"}, {"os.WriteFile", "WriteFile"},
+		{"os.Stat", "Stat"}, {"os.Lstat", "Stat"}, {"s.HasChunk", "HasChunk"}, {"os.Link", "Link"}, {"os.Symlink", "Symlink"}})
+	c.lean.WriteString("/-- file operations of `LocalStore.StoreChunk`, in source order (a look at what is already there — Stat, HasChunk — would show up here: the chunk is written unconditionally, which is what a cache repair relies on) -/\n")
 	c.emitShape("shape_local_StoreChunk", "localStoreChunkShape", sh, fd != nil)
 
 	// dedupqueue.go: leader path of GetChunk/HasChunk and the order inside markDone
